@@ -1242,7 +1242,7 @@ def enum_case(path):
 
 ENUMS = {
     'quick': (['a', 'b', 'c', 'x', 'l[0]', 'q'], 3, (1, 2, 3, 4), (0, 1, 2), (0, 2)),
-    'thorough': (['a', 'b', 'c', 'x', 'l[0]', 'l[ 1]', 'e', 'q'], 4, (1, 2, 3), (0, 1, 3), (0, 2)),
+    'thorough': (['a', 'b', 'c', 'x', 'l[ 1]', 'e', 'q'], 4, (1, 2, 3), (0, 1, 3), (0, 2)),
 }
 
 
